@@ -347,3 +347,7 @@ CLAIMED["C17"]["text"] += (" Seventh round (fix 1658789): the renderer counts th
 CLAIMED["C15"]["text"] += (" Seventh round: required recursion through arrays with minItems is refused by Check (fix fb8368b), so the former invalid examples are gone; objects with two required key shortcuts whose key "
                            "types share their example key are recognised as the known collision class.")
 CLAIMED["C18"]["text"] += (" Seventh round: lists holding an integer and the float of the same value (different enum items) are generated for the named-versus-inline comparison.")
+CLAIMED["C03"]["text"] += (" Eighth round: Schema/E2ETypes.v runs the rule-free skeleton of every generated graph from its TEXTS inside the extracted model (schema scanner -> loader -> mnode_of_node -> type graph; "
+                           "document text -> JSON scanner -> events -> event machine) against Validate, and C03_typed_texts_accept_iff_denotation / C03_typed_texts_not_stuck carry the machine theorem to the texts "
+                           "(with a kernel-checked example that the hypotheses are met).")
+CLAIMED["C08"]["text"] += (" Eighth round: every rule-set case is repeated with a flag that says nothing (const: false / nullable: false) written first and last in the rule-set - same expected verdict (fix a4b2d4a).")
